@@ -157,6 +157,11 @@ class Qasm3Transformer:
                 )
             gate_qubit_name = qubit.name
             assert isinstance(gate_qubit_name, str)
+            if gate_qubit_name not in qubit_map:
+                raise_qasm3_error(
+                    f"Undeclared qubit '{gate_qubit_name}' used in gate definition",
+                    span=qubit.span,
+                )
             gate_op.qubits[i] = qubit_map[gate_qubit_name]
 
     @staticmethod
